@@ -98,6 +98,109 @@ func (p *Pts) Scan(v interface{}) error {
 	return nil
 }
 
+// ---- custom Scanner/Valuer types of every underlying kind, with a NON-identity encoding ----
+
+// Price: named integer, stored x100
+type Price int64
+
+func (p Price) Value() (driver.Value, error) { return int64(p) * 100, nil }
+func (p *Price) Scan(v interface{}) error {
+	switch x := v.(type) {
+	case int64:
+		*p = Price(x / 100)
+	case nil:
+		*p = 0
+	default:
+		return fmt.Errorf("Price: cannot scan %T", v)
+	}
+	return nil
+}
+
+// Code: named string, stored with the prefix "enc:"
+type Code string
+
+func (c Code) Value() (driver.Value, error) { return "enc:" + string(c), nil }
+func (c *Code) Scan(v interface{}) error {
+	var s string
+	switch x := v.(type) {
+	case string:
+		s = x
+	case []byte:
+		s = string(x)
+	case nil:
+		*c = ""
+		return nil
+	default:
+		return fmt.Errorf("Code: cannot scan %T", v)
+	}
+	*c = Code(strings.TrimPrefix(s, "enc:"))
+	return nil
+}
+
+// CSV: named slice, stored as comma separated text (nil = NULL)
+type CSV []string
+
+func (l CSV) Value() (driver.Value, error) {
+	if l == nil {
+		return nil, nil
+	}
+	return "[" + strings.Join(l, ",") + "]", nil
+}
+func (CSV) GormDataType() string { return "text" }
+func (l *CSV) Scan(v interface{}) error {
+	var s string
+	switch x := v.(type) {
+	case string:
+		s = x
+	case []byte:
+		s = string(x)
+	case nil:
+		*l = nil
+		return nil
+	default:
+		return fmt.Errorf("CSV: cannot scan %T", v)
+	}
+	s = strings.TrimSuffix(strings.TrimPrefix(s, "["), "]")
+	if s == "" {
+		*l = CSV{}
+		return nil
+	}
+	*l = CSV(strings.Split(s, ","))
+	return nil
+}
+
+// KV: named map, stored as JSON text (nil = NULL)
+type KV map[string]string
+
+func (m KV) Value() (driver.Value, error) {
+	if m == nil {
+		return nil, nil
+	}
+	b, err := json.Marshal(map[string]string(m))
+	return string(b), err
+}
+func (KV) GormDataType() string { return "text" }
+func (m *KV) Scan(v interface{}) error {
+	var s string
+	switch x := v.(type) {
+	case string:
+		s = x
+	case []byte:
+		s = string(x)
+	case nil:
+		*m = nil
+		return nil
+	default:
+		return fmt.Errorf("KV: cannot scan %T", v)
+	}
+	out := map[string]string{}
+	if err := json.Unmarshal([]byte(s), &out); err != nil {
+		return err
+	}
+	*m = out
+	return nil
+}
+
 // ---- serialized payloads ----
 
 type Payload struct {
@@ -413,6 +516,20 @@ type NumSer struct {
 	JS   string   `gorm:"serializer:json"`
 }
 
+// ---- T21: custom types of every underlying kind ----
+type Customs struct {
+	ID   uint   `gorm:"primaryKey"`
+	Mark string `gorm:"uniqueIndex"`
+	P    Price
+	PP   *Price
+	C    Code
+	PC   *Code
+	L    CSV
+	M    KV
+	Lv   Level
+	Tg   Tag
+}
+
 // ---- T11: the same struct embedded twice with different prefixes, inner `column:` rename ----
 type Addr struct {
 	City string
@@ -436,7 +553,7 @@ var registry = []struct {
 	{"Ints", reflect.TypeOf(Ints{})}, {"Scalars", reflect.TypeOf(Scalars{})}, {"Nulls", reflect.TypeOf(Nulls{})},
 	{"Sers", reflect.TypeOf(Sers{})}, {"Embs", reflect.TypeOf(Embs{})}, {"Defs", reflect.TypeOf(Defs{})},
 	{"Comp", reflect.TypeOf(Comp{})}, {"Keyed", reflect.TypeOf(Keyed{})}, {"StrKey", reflect.TypeOf(StrKey{})},
-	{"UnixU", reflect.TypeOf(UnixU{})}, {"Twice", reflect.TypeOf(Twice{})}, {"Loc", reflect.TypeOf(Loc{})}, {"Uid", reflect.TypeOf(Uid{})}, {"PTimes", reflect.TypeOf(PTimes{})}, {"Modeled", reflect.TypeOf(Modeled{})}, {"Defs2", reflect.TypeOf(Defs2{})}, {"SDef", reflect.TypeOf(SDef{})}, {"CDef", reflect.TypeOf(CDef{})}, {"PEmb", reflect.TypeOf(PEmb{})}, {"NumSer", reflect.TypeOf(NumSer{})},
+	{"UnixU", reflect.TypeOf(UnixU{})}, {"Twice", reflect.TypeOf(Twice{})}, {"Loc", reflect.TypeOf(Loc{})}, {"Uid", reflect.TypeOf(Uid{})}, {"PTimes", reflect.TypeOf(PTimes{})}, {"Modeled", reflect.TypeOf(Modeled{})}, {"Defs2", reflect.TypeOf(Defs2{})}, {"SDef", reflect.TypeOf(SDef{})}, {"CDef", reflect.TypeOf(CDef{})}, {"PEmb", reflect.TypeOf(PEmb{})}, {"NumSer", reflect.TypeOf(NumSer{})}, {"Customs", reflect.TypeOf(Customs{})},
 }
 
 func typeByName(n string) reflect.Type {
